@@ -219,4 +219,41 @@ example : recvBodyLen true (List.replicate 16 255 ++ [255, 255, 2]) = some 65516
 example : recvBodyLen false (List.replicate 16 255 ++ [16, 1, 2]) = none := by decide
 example : recvBodyLen true (List.replicate 16 255 ++ [16, 1, 4]) = none := by decide
 
+/-! ## 6. The bound used is the bound negotiated by the CURRENT session, whatever happened before -/
+
+/-- **session_flag_current** — for every initial value of the flag and every history of earlier sessions on
+    the same fsm (with or without Extended Message, 4-octet AS, …), after the current session is established
+    the flag is exactly what the current OPEN negotiates. -/
+theorem session_flag_current (init : Bool) (hist : List Open) (cur : Open) :
+    extAfter init (hist ++ [cur]) = sessionExt cur := by
+  induction hist generalizing init with
+  | nil => rfl
+  | cons o rest ih => exact ih (sessionExt o)
+
+/-- **recv_bound_follows_session** — the receive path of the current session admits a message of more than
+    4096 octets only if THIS session's peer OPEN carries the Extended Message capability (and the type is
+    UPDATE / NOTIFICATION / ROUTE-REFRESH), for every session history. -/
+theorem recv_bound_follows_session (init : Bool) (hist : List Open) (cur : Open) (hdr : Bytes) (n : Nat)
+    (h : recvBodyLenSess init hist cur hdr = some n) :
+    n + 19 ≤ (if sessionExt cur = true ∧ (hdr.getD 18 0 = 2 ∨ hdr.getD 18 0 = 3 ∨ hdr.getD 18 0 = 5)
+              then 65535 else 4096) := by
+  unfold recvBodyLenSess at h
+  rw [session_flag_current] at h
+  exact (recv_bounded (sessionExt cur) hdr n h).2
+
+/-- and it does not depend on the history at all -/
+theorem recv_history_irrelevant (i1 i2 : Bool) (h1 h2 : List Open) (cur : Open) (hdr : Bytes) :
+    recvBodyLenSess i1 h1 cur hdr = recvBodyLenSess i2 h2 cur hdr := by
+  unfold recvBodyLenSess; rw [session_flag_current, session_flag_current]
+
+/-- non-vacuity: a session with Extended Message followed by an old speaker (no 4-octet AS, no Extended
+    Message): a 5000-octet UPDATE header is refused, a 4096-octet one is read -/
+example :
+    let s1 : Open := ⟨4, 23456, 90, 1, 0, [.caps 2 12 [⟨1, 4, [1, 1]⟩, ⟨65, 4, [65002]⟩, ⟨6, 0, []⟩]]⟩
+    let s2 : Open := ⟨4, 65002, 90, 1, 0, [.caps 2 6 [⟨1, 4, [1, 1]⟩]]⟩
+    sessionExt s1 = true ∧ sessionExt s2 = false ∧
+    recvBodyLenSess false [s1] s2 (List.replicate 16 255 ++ [19, 136, 2]) = none ∧
+    recvBodyLenSess false [s1] s2 (List.replicate 16 255 ++ [16, 0, 2]) = some 4077 ∧
+    recvBodyLenSess false [s2] s1 (List.replicate 16 255 ++ [19, 136, 2]) = some 4981 := by decide
+
 end C05
